@@ -596,7 +596,10 @@ def quantArgL (env : PEnv) (lower : Option Level) (input : Input) : LexRes QArg 
   | .ok (a, rest) =>
     match a.node with
     | .literal _ => errSpan .typeMismatch input rest
-    | .index e => if a.ty == .array .bool then .ok (.index e, rest) else errSpan .typeMismatch input rest
+    | .index e =>
+      -- an index expression with `[*]` evaluates to an array of its elements: never `Array(Bool)`
+      if a.ty == .array .bool && mapEachCount e.indexes == 0 then .ok (.index e, rest)
+      else errSpan .typeMismatch input rest
     | .logical e => if a.ty == .array .bool then .ok (.logical e, rest) else errSpan .typeMismatch input rest
 
 /-- Builds one nesting level from the level below (`none` = nesting budget exhausted). -/
